@@ -122,7 +122,7 @@ def check(run):
                     "Python driver checks/coord_common.py (generators, invariant oracle)"]
     run.assumptions += ["heartbeats report the coordinator's own running count and registrations report 0 (count part of the oracle is switched off for histories that do otherwise)",
                         "pipeline names inside one group spec are distinct", "usize counters do not overflow"]
-    binpath = C.build_all(run, ["theories/Coord/Props.vo"], "C32.v")
+    binpath = C.build_all(run, ["theories/Coord/Props.vo", "theories/Coord/Legacy.vo"], "C32.v")
     if binpath is None:
         return
     cases = gen_cases(run)
